@@ -35,6 +35,7 @@ import (
 	"go.minekube.com/gate/pkg/edition/java/proto/packet/title"
 	"go.minekube.com/gate/pkg/edition/java/proto/state"
 	"go.minekube.com/gate/pkg/edition/java/proto/state/states"
+	"go.minekube.com/gate/pkg/edition/java/proto/util"
 	"go.minekube.com/gate/pkg/edition/java/proto/version"
 	"go.minekube.com/gate/pkg/edition/java/proxy/crypto"
 	"go.minekube.com/gate/pkg/edition/java/proxy/crypto/keyrevision"
@@ -223,6 +224,7 @@ type c04Env struct {
 	genErr error  // an error raised while preparing a permitted value (e.g. component -> NBT conversion)
 	genKey string // violation key for genErr
 	wide   bool   // wide alphabet for component strings
+	dataLen int   // forced plugin message payload length (0 = generated)
 }
 
 func (e *c04Env) label(l string) { e.labels[l] = true }
@@ -1033,6 +1035,24 @@ func c04Hint(e *c04Env, path string) c04H {
 		if c.Dir == proto.ServerBound && c.ge(version.Minecraft_1_8) {
 			return c04L(0, 32767)
 		}
+		if e.dataLen > 0 {
+			if c.Dir == proto.ServerBound && c.ge(version.Minecraft_1_8) && e.dataLen > 32767 {
+				return c04L(32767, 32767)
+			}
+			e.label("message-forced-length")
+			return c04L(e.dataLen, e.dataLen)
+		}
+		if !c.ge(version.Minecraft_1_8) && e.src.chance(1, 3) {
+			// 1.7 frames the payload with the 2-or-3-byte extended short: lengths on
+			// both sides of every bit-15 / bit-16 boundary up to the Forge maximum
+			base := []int{32767, 32768, 65535, 65536, 98303, 98304, 131071, 131072, 163839, 163840, 1 << 20, util.ForgeMaxArrayLength}
+			n := base[e.src.n(len(base))] + e.src.n(3) - 1
+			if n > util.ForgeMaxArrayLength {
+				n = util.ForgeMaxArrayLength
+			}
+			e.label("message-1.7-extended-short-length")
+			return c04L(n, n)
+		}
 		return c04L(0, 40000)
 	case "LoginPluginMessage.Data", "LoginPluginResponse.Data", "RegistrySync.Data", "CodeOfConductPacket.Data", "CustomClickActionPacket.Data":
 		return c04L(0, 40000)
@@ -1335,7 +1355,13 @@ func (e *c04Env) noGen(path string, t reflect.Type) {
 
 // c04Build constructs a packet value of the registration's type from entropy.
 func c04Build(c c04Combo, entropy []byte, wide bool) (proto.Packet, *c04Env) {
-	e := &c04Env{src: &c04Src{b: entropy}, c: c, labels: map[string]bool{}, wide: wide}
+	return c04BuildLen(c, entropy, wide, 0)
+}
+
+// c04BuildLen: dataLen > 0 forces the length of a plugin message payload (the
+// boundary sweep over the 1.7 extended-short length prefix).
+func c04BuildLen(c c04Combo, entropy []byte, wide bool, dataLen int) (proto.Packet, *c04Env) {
+	e := &c04Env{src: &c04Src{b: entropy}, c: c, labels: map[string]bool{}, wide: wide, dataLen: dataLen}
 	pv := reflect.New(c.Type)
 	e.fill(pv.Elem(), c.Type.Name())
 	p := pv.Interface().(proto.Packet)
